@@ -11,9 +11,10 @@ def run_cli(args, cwd=None, env=None, timeout=600, stdin=None):
     e.pop('GAMBIT_DB_PATH', None)
     if env:
         e.update(env)
+    # bytes are captured and decoded here: text mode would translate CR / CRLF inside quoted CSV fields written to standard output
     p = subprocess.run([PY, '-W', 'ignore', '-m', 'gambit'] + [str(a) for a in args], cwd=cwd, env=e, stdout=subprocess.PIPE,
-                       stderr=subprocess.PIPE, text=True, timeout=timeout, input=stdin)
-    return p.returncode, p.stdout, p.stderr
+                       stderr=subprocess.PIPE, timeout=timeout, input=stdin.encode() if isinstance(stdin, str) else stdin)
+    return p.returncode, p.stdout.decode('utf-8', errors='replace'), p.stderr.decode('utf-8', errors='replace')
 
 
 def run_many(jobs, parallel=14):
